@@ -83,6 +83,22 @@ MUTANTS = [
     ("desc_end_check", "bitar/src/archive.rs", "Some(offset) if offset.checked_add(dict.archive_size as u64).is_some() => offset,", "Some(offset) => offset,", ["C15"]),
     ("verify_output", "src/clone_cmd.rs", "        if sum == *expected_checksum {", "        if sum == *expected_checksum || expected_checksum.len() < 64 {", ["C04"]),
     ("compression_level", "bitar/src/archive.rs", "        Ok(CompressionType::Brotli) => Ok(Some(Compression {\n            algorithm: CompressionAlgorithm::Brotli,\n            level: c.compression_level,", "        Ok(CompressionType::Brotli) => Ok(Some(Compression {\n            algorithm: CompressionAlgorithm::Brotli,\n            level: c.compression_level.min(11),", ["C11", "C17"]),
+    # ---- session 4: clone index / clone output / executor / scan / clone flow (units u11, u13, u14)
+    ("ci_sorted_insert_at0", "bitar/src/chunk_index.rs", "self.offsets.insert(idx, offset);", "self.offsets.insert(0, offset);", ["C13"]),
+    ("ci_add_no_truncate", "bitar/src/chunk_index.rs", "        hash.truncate(self.hash_length);\n", "", ["C02", "C13"]),
+    ("ci_trunc_ge", "bitar/src/chunk_index.rs", "if hash.len() > self.truncate_len {", "if hash.len() > self.truncate_len + 1 {", ["C02"]),
+    ("ci_strip_skip_first", "bitar/src/chunk_index.rs", ".position(|offset| *offset == *remove_offset)", ".position(|offset| *offset > *remove_offset)", ["C13"]),
+    ("ci_strip_keep_empty", "bitar/src/chunk_index.rs", "if cd.offsets.is_empty() {", "if cd.offsets.len() > 1 {", ["C13"]),
+    ("co_feed_no_write", "bitar/src/clone_output.rs", "Ok(self.write_offset(location.offsets(), verified).await?)", "Ok(self.write_offset(&location.offsets()[1..], verified).await?)", ["C13", "C02"]),
+    ("co_write_seek_plus", "bitar/src/clone_output.rs", "self.inner.seek(SeekFrom::Start(offset)).await?;\n            self.inner.write_all", "self.inner.seek(SeekFrom::Start(offset + 1)).await?;\n            self.inner.write_all", ["C13", "C02"]),
+    ("ex_copy_from_dest", "bitar/src/clone_output.rs", "                        temp_buf.resize(size, 0);\n                        self.inner.seek(SeekFrom::Start(source)).await?;", "                        temp_buf.resize(size, 0);\n                        self.inner.seek(SeekFrom::Start(dest[0])).await?;", ["C03", "C13"]),
+    ("ex_store_resize", "bitar/src/clone_output.rs", "                        buf.resize(size, 0);", "                        buf.resize(size / 2, 0);", ["C03"]),
+    ("ex_no_index_remove", "bitar/src/clone_output.rs", "                    self.clone_index.remove(hash);\n", "", ["C06", "C13"]),
+    ("ex_mem_not_removed", "bitar/src/clone_output.rs", "if let Some(verified) = temp_store.remove(hash) {", "if let Some(verified) = temp_store.get(hash).cloned() {", ["C03"]),
+    ("scan_size_wrong", "src/clone_cmd.rs", "index.add_chunk(hash, chunk.len(), &[chunk_offset]);", "index.add_chunk(hash, chunk.len(), &[chunk_offset + 1]);", ["C06", "C03"]),
+    ("filesize_no_rewind", "src/clone_cmd.rs", "    let size = file.seek(SeekFrom::End(0)).await?;\n    file.seek(SeekFrom::Start(0)).await?;", "    let size = file.seek(SeekFrom::End(0)).await?;", ["C06"]),
+    ("flow_setlen_blockdev", "src/clone_cmd.rs", "    if !output_is_block_dev {\n        // Resize", "    if output_is_block_dev {\n        // Resize", ["C02", "C03"]),
+    ("srcidx_offset0", "bitar/src/archive.rs", "ci.add_chunk(cd.checksum.clone(), cd.source_size as usize, &[offset]);", "ci.add_chunk(cd.checksum.clone(), cd.source_size as usize, &[offset / 2 * 2]);", ["C13", "C02"]),
 ]
 
 
